@@ -121,12 +121,19 @@ def run(chk):
         elif isinstance(n, ast.For) and len(n.body) == 1 and isinstance(n.body[0], ast.If) and isinstance(n.body[0].body[0], ast.Return):
             rows = A.literal_seq(n.iter, nb.node, prog.module(GEO).tree)
             names = A.assigned_names(n.target)
+            if rows is not None:
+                rows = [tuple(r_) if isinstance(r_, str) and len(r_) == len(names) else r_ for r_ in rows]   # 'tb' unpacks to ('t', 'b')
             if rows is None or not all(isinstance(r_, (tuple, list)) and len(r_) == len(names) for r_ in rows):
                 raise AnalysisError("nn_bond_dirn: table of directions is not a literal")
             for r_ in rows:
                 env = dict(zip(names, r_))
                 lab = subst(n.body[0].body[0].value, env)
-                cases.append((n, subst(n.body[0].test, env), lab.value if isinstance(lab, ast.Constant) else None))
+                try:
+                    from ..core.minieval import evaluate
+                    labv = evaluate(lab, {})
+                except Exception:  # noqa: BLE001
+                    labv = None
+                cases.append((n, subst(n.body[0].test, env), labv))
     chk.require(len(cases) >= 4, "nn_bond_dirn: four direction tests expected")
     seen = set()
     for rep, test, label in cases:
@@ -158,6 +165,19 @@ def run(chk):
         chk.verdict("Q2", (nb, rep), f"{A.text(test)} -> {label!r}", True if ok else False, why)
     chk.verdict("Q2", nb, "all four directions tested", True if seen == set(OPP) else False,
                 f"nn_bond_dirn tests directions {sorted(seen)} only")
+    # On a periodic axis of length 2 (or 1) a site is both the right and the left (bottom and top) neighbour: both tests of an axis hold.
+    # Bonds are listed in lattice order (site, its 'r'/'b' neighbour), so the lattice-order test of each axis must come first.
+    order_ = []
+    for rep, test, label in cases:
+        for c in (test.values if isinstance(test, ast.BoolOp) else []):
+            if isinstance(c, ast.Compare) and isinstance(c.left, ast.Call) and len(c.left.args) == 2 and A.text(c.left.args[0]) == s0n \
+                    and isinstance(c.left.args[1], ast.Constant):
+                order_.append(c.left.args[1].value)
+    for fwd, bwd in (("r", "l"), ("b", "t")):
+        if fwd in order_ and bwd in order_:
+            chk.verdict("Q2", nb, f"'{fwd}' is tested before '{bwd}'", True if order_.index(fwd) < order_.index(bwd) else False,
+                        f"nn_bond_dirn tests direction '{bwd}' before '{fwd}': on a periodic axis of length 2 both hold and a bond listed in lattice "
+                        f"order (site, its '{fwd}' neighbour) is reported with the reversed label")
     last = nb.node.body[-1]
     chk.verdict("Q2", (nb, last), last, True if isinstance(last, ast.Raise) else False,
                 "nn_bond_dirn does not end in a raise for non-neighbouring sites")
@@ -469,6 +489,7 @@ def run(chk):
     e10.run_U(chk, ("yastn.tn.fpeps._geometry",), floor1=5, floor2=1)
 
 MUTANTS = [
+    ("direction tests folded into a loop in another order", "yastn/tn/fpeps/_geometry.py", "        if self.nn_site(s0, 'r') == s1 and self.nn_site(s1, 'l') == s0:\n            return 'lr'  # dirn\n        if self.nn_site(s0, 'b') == s1 and self.nn_site(s1, 't') == s0:\n            return 'tb'\n        if self.nn_site(s0, 'l') == s1 and self.nn_site(s1, 'r') == s0:\n            return 'rl'\n        if self.nn_site(s0, 't') == s1 and self.nn_site(s1, 'b') == s0:\n            return 'bt'\n", "        for d0, d1 in ('tb', 'lr', 'bt', 'rl'):\n            if self.nn_site(s0, d0) == s1 and self.nn_site(s1, d1) == s0:\n                return d1 + d0\n", "Q2"),
     ("dir table entry", "yastn/tn/fpeps/_geometry.py", "'tl': (-1, -1), 't': (-1, 0), 'tr': (-1,  1),", "'tl': (-1, -1), 't': (-1, 0), 'tr': (-1,  -1),", "Q1"),
     ("label rl for r", "yastn/tn/fpeps/_geometry.py", "            return 'lr'  # dirn", "            return 'rl'  # dirn", "Q2"),
     ("cylinder row not reduced", "yastn/tn/fpeps/_geometry.py", "        x = site[0] % self._dims[0] if self._periodic[0] in 'ip' else site[0]", "        x = site[0] % self._dims[0] if self._periodic[0] == 'i' else site[0]", "Q3"),
@@ -480,6 +501,7 @@ MUTANTS = [
     ("upper bound off by one", "yastn/tn/fpeps/_geometry.py", "if self._periodic[1] == 'o' and (y < 0 or y >= self._dims[1]):", "if self._periodic[1] == 'o' and (y < 0 or y > self._dims[1]):", "Q2"),
 ]
 BENIGN = [
+    ("direction tests folded into a loop, same order", "yastn/tn/fpeps/_geometry.py", "        if self.nn_site(s0, 'r') == s1 and self.nn_site(s1, 'l') == s0:\n            return 'lr'  # dirn\n        if self.nn_site(s0, 'b') == s1 and self.nn_site(s1, 't') == s0:\n            return 'tb'\n        if self.nn_site(s0, 'l') == s1 and self.nn_site(s1, 'r') == s0:\n            return 'rl'\n        if self.nn_site(s0, 't') == s1 and self.nn_site(s1, 'b') == s0:\n            return 'bt'\n", "        for d0, d1 in ('rl', 'bt', 'lr', 'tb'):\n            if self.nn_site(s0, d0) == s1 and self.nn_site(s1, d1) == s0:\n                return d1 + d0\n"),
     ("boundary test as != 'o'", "yastn/tn/fpeps/_geometry.py", "        x = site[0] % self._dims[0] if self._periodic[0] in 'ip' else site[0]", "        x = site[0] % self._dims[0] if self._periodic[0] != 'o' else site[0]"),
     ("column-major stride", "yastn/tn/fpeps/_geometry.py", "            return (site[0] % self.Nx) * self.Ny + site[1] % self.Ny", "            return site[0] % self.Nx + self.Nx * (site[1] % self.Ny)"),
     ("reorder dir literal", "yastn/tn/fpeps/_geometry.py", "        self._dir = {'tl': (-1, -1), 't': (-1, 0), 'tr': (-1,  1),\n                      'l': ( 0, -1),                'r': ( 0,  1),",
